@@ -3,7 +3,7 @@
    node does to the spine of open frames. *)
 From Coq Require Import List Arith Bool NArith Lia.
 From GV Require Import Base.Result Gen.TokenTypes Gen.Defs Model.Parser Spec.RefTable Spec.Pratt Spec.Chains
-  Proofs.C02.Denote Proofs.C02.Invariant Proofs.C02.Steps.
+  Proofs.C02.Spine Proofs.C02.Denote Proofs.C02.Invariant Proofs.C02.Steps.
 Import ListNotations.
 
 (* an operand is expected: the innermost frame waits for the node [length ns] *)
@@ -147,11 +147,11 @@ Proof.
 Qed.
 
 (* S4: an opening bracket where an operand is expected *)
-Lemma open_on_pending ns fs nd k :
+Lemma open_on_pending ns fs nd b k :
   pstruct ns fs ->
-  n_sec nd = S_StartGrouping -> n_def nd = D_Group -> n_parent nd = top_id fs -> n_left nd = None ->
+  n_sec nd = S_StartGrouping -> n_def nd = bdef b -> n_parent nd = top_id fs -> n_left nd = None ->
   n_right nd = Some (S (length ns)) -> n_tok nd = Some k ->
-  pstruct (ns ++ [nd]) (FGroup (length ns) k :: fs).
+  pstruct (ns ++ [nd]) (FGroup b (length ns) k :: fs).
 Proof.
   intros [Sp F Cov Bot FO] Hsec Hdef Hpar Hleft Hright Htok.
   constructor; rewrite ?app_length; cbn [length]; replace (length ns + 1) with (S (length ns)) by lia.
@@ -166,40 +166,41 @@ Qed.
 
 (* S5: a closing bracket after a completed operand: no node changes; the frames above the
    innermost open bracket and the bracket itself are closed *)
-Lemma close_group_ind (Q : list frame -> ntree -> Prop) :
+Lemma close_group_ind (Q : list frame -> ntree -> Prop) b :
   (forall f r t, Q (f :: r) t -> Q r (plug f t)) ->
-  forall fs t fs' t', Q fs t -> close_group fs t = Some (fs', t') -> Q fs' t'.
+  forall fs t fs' t', Q fs t -> close_group b fs t = Some (fs', t') -> Q fs' t'.
 Proof.
   intros Hstep. induction fs as [|f r IH]; intros t fs' t' HQ H; [discriminate|].
-  destruct f as [i d k l|i d k|i k]; cbn [close_group] in H.
+  destruct f as [i d k l|i d k|b0 i k]; cbn [close_group] in H.
   - eapply IH; [|exact H]. apply (Hstep (FBin i d k l)). exact HQ.
   - eapply IH; [|exact H]. apply (Hstep (FPre i d k)). exact HQ.
-  - injection H as <- <-. apply (Hstep (FGroup i k)). exact HQ.
+  - destruct (bkind_eqb b0 b); [|discriminate H]. injection H as <- <-. apply (Hstep (FGroup b0 i k)). exact HQ.
 Qed.
 
-Lemma close_group_shape : forall fs t fs' t', close_group fs t = Some (fs', t') ->
-  exists i k a, t' = NGroup i k a /\ first_group fs = Some i.
+Lemma close_group_shape b : forall fs t fs' t', close_group b fs t = Some (fs', t') ->
+  exists i k a, t' = NGroup b i k a /\ first_group fs = Some i.
 Proof.
   induction fs as [|f r IH]; intros t fs' t' H; [discriminate|].
-  destruct f as [i d k l|i d k|i k]; cbn [close_group first_group] in *.
+  destruct f as [i d k l|i d k|b0 i k]; cbn [close_group first_group] in *.
   - eapply IH; eauto.
   - eapply IH; eauto.
-  - injection H as <- <-. exists i, k, t. split; reflexivity.
+  - destruct (bkind_eqb b0 b) eqn:Eb; [|discriminate H]. apply bkind_eqb_eq in Eb. subst b0.
+    injection H as <- <-. exists i, k, t. split; reflexivity.
 Qed.
 
-Lemma close_on_complete ns fs t fs' t' :
-  cstruct ns fs t -> close_group fs t = Some (fs', t') -> cstruct ns fs' t'.
+Lemma close_on_complete ns b fs t fs' t' :
+  cstruct ns fs t -> close_group b fs t = Some (fs', t') -> cstruct ns fs' t'.
 Proof.
   intros [L Cl Cov Bot FO] H. constructor.
-  - revert L H. apply (close_group_ind (linked ns)). intros f r t0. apply linked_plug.
-  - destruct (close_group_shape _ _ _ _ H) as (i & k & a & -> & _). exact I.
+  - revert L H. apply (close_group_ind (linked ns) b). intros f r t0. apply linked_plug.
+  - destruct (close_group_shape _ _ _ _ _ H) as (i & k & a & -> & _). exact I.
   - assert (E : forall j, frames_have fs' j \/ has_id t' j <-> frames_have fs j \/ has_id t j).
-    { revert H. apply (close_group_ind (fun a b => forall j, frames_have a j \/ has_id b j <-> frames_have fs j \/ has_id t j));
+    { revert H. apply (close_group_ind (fun a c => forall j, frames_have a j \/ has_id c j <-> frames_have fs j \/ has_id t j) b);
         [|tauto]. intros f r t0 H0 j. rewrite <- H0. simpl. rewrite plug_has. tauto. }
     intros j Hj. apply E. apply Cov. exact Hj.
-  - revert H. apply (close_group_ind (fun a b => bottom_lo a (lo b) = 0)); [|exact Bot].
+  - revert H. apply (close_group_ind (fun a c => bottom_lo a (lo c) = 0) b); [|exact Bot].
     intros f r t0 H0. rewrite plug_lo. exact H0.
-  - revert H. apply (close_group_ind (fun a _ => frames_ok a)); [|exact FO].
+  - revert H. apply (close_group_ind (fun a _ => frames_ok a) b); [|exact FO].
     intros f r _ H0 f' Hf' Hg. apply H0; [right; exact Hf'|exact Hg].
 Qed.
 
